@@ -584,3 +584,254 @@ def _leaves(b, op, depth=6, seen=None):
         else:
             out.append(o)
     return out
+
+
+# ------------------------------------------------------------------------------------------- TRIG-1 writers that wait for level-0 relief are waiting for something
+def _const_num(op):
+    if op.get("k") != "const":
+        return None
+    v = str(op.get("val") if op.get("val") is not None else op.get("text") or "")
+    v = v.replace("f64", "").replace("_usize", "").replace("_u64", "")
+    try:
+        return float(v)
+    except ValueError:
+        return None
+
+
+def trig1_level0_stall_has_a_due_compaction(P, R, L, rule="TRIG-1"):
+    """DB::make_room_for_write delays / parks a writer when level 0 holds `>= N` FILES (N = the slow-down and stop triggers).  The
+    writer is only ever released by a compaction of level 0, so one must be due whenever it waits: Version::finalize scores
+    level 0 by its file COUNT divided by a constant D, requires_size_compaction is `score >= 1`, and D <= every N.  (Scoring
+    level 0 by bytes, or a compaction trigger above the stop trigger, parks writers with nothing scheduled.)"""
+    fin = P.body("versioning::version::Version::finalize")
+    req = P.body("versioning::version::Version::requires_size_compaction")
+    mr = P.body("db::DB::make_room_for_write")
+    for nm, b in (("Version::finalize", fin), ("Version::requires_size_compaction", req), ("DB::make_room_for_write", mr)):
+        if b is None:
+            R.missing_anchor(rule, nm)
+    if fin is None or req is None or mr is None:
+        return
+    R.analysed(fin, req, mr)
+    # -- level-0 score = len(files[level]) / D on the `level == 0` edge
+    zero_edges = []
+    for c in comparisons(fin):
+        if c.op in ("eq", "ne") and (_const_val(c.rhs) == 0 or _const_val(c.lhs) == 0):
+            zero_edges += [(c.bb, t) for t in (c.true_t if c.op == "eq" else c.false_t)]
+    D, by_count = None, False
+    for bb in range(fin.n):
+        if fin.is_cleanup(bb):
+            continue
+        for st in fin.blocks[bb]["stmts"]:
+            if st["k"] == "assign" and st["rv"]["k"] == "binop" and st["rv"]["op"] == "Div" and zero_edges and \
+                    fin.must_pass(bb, through_edges=zero_edges):
+                num, den = st["rv"]["ops"]
+                d = _const_num(den)
+                if d is None:
+                    for o in _leaves(fin, den):
+                        if o.kind == "const" and o.extra is not None:
+                            d = _const_num(o.extra)
+                if d is not None:
+                    D = d
+                    by_count = any(o.kind == "call" and (o.name or "").endswith("::len") for o in _leaves(fin, num))
+    R.check(rule, "versioning::version::Version::finalize|level-0-scored-by-file-count", D is not None and D >= 1 and by_count, where(fin),
+            "on the `level == 0` edge the score is files[0].len() / D (D a constant >= 1)", "D = %s, numerator is a length: %s" % (D, by_count))
+    # -- due means score >= 1
+    thr = None
+    for bb in range(req.n):
+        for st in req.blocks[bb]["stmts"]:
+            if st["k"] == "assign" and st["rv"]["k"] == "binop" and st["rv"]["op"] in ("Ge", "Gt", "Le", "Lt") and st["pl"]["l"] == 0:
+                a, b_ = st["rv"]["ops"]
+                if st["rv"]["op"] == "Ge" and _const_num(b_) is not None:
+                    thr = _const_num(b_)
+                elif st["rv"]["op"] == "Le" and _const_num(a) is not None:
+                    thr = _const_num(a)
+                else:
+                    thr = float("inf")
+    R.check(rule, "versioning::version::Version::requires_size_compaction|due-at-score-one", thr is not None and thr <= 1.0, where(req),
+            "a size compaction is due when the score is >= 1 (or a smaller constant)", "threshold %s" % thr)
+    # -- the stall thresholds
+    ns, bad, lvl_ok = [], [], True
+    for c in comparisons(mr):
+        for (x, y, op) in ((c.lhs, c.rhs, c.op), (c.rhs, c.lhs, {"lt": "gt", "le": "ge", "gt": "lt", "ge": "le", "eq": "eq", "ne": "ne"}[c.op])):
+            os_ = origins(mr, x)
+            if not any(o.kind == "call" and (o.name or "").endswith("::num_files_at_level") for o in os_):
+                continue
+            for o in os_:
+                if o.kind == "call" and (o.name or "").endswith("::num_files_at_level") and o.site is not None and len(o.site.args) >= 2 and _const_val(o.site.args[1]) != 0:
+                    lvl_ok = False
+            n_ = _const_num(y)
+            if n_ is None or op not in ("ge", "gt"):
+                bad.append("level-0 file count compared with a non-constant or in another direction (line %s)" % c.line)
+                continue
+            ns.append(n_ + (1 if op == "gt" else 0))
+    ok = bool(ns) and not bad and lvl_ok and D is not None and thr is not None and all(n_ / D >= thr for n_ in ns)
+    R.check(rule, "db::DB::make_room_for_write|a-stalled-writer-has-a-due-compaction", ok, where(mr),
+            "every `level-0 files >= N` test that delays or parks a writer has N / D >= the due threshold, and counts level 0",
+            "; ".join(bad) or "N = %s, D = %s, threshold %s, level argument is 0: %s" % (sorted(ns), D, thr, lvl_ok))
+    R.floor(rule, "level-0 stall thresholds in make_room_for_write", len(ns), 2)
+
+
+# ------------------------------------------------------------------------------------------- LST-1 link repairs of the intrusive list
+def _chain_tokens(b, l, depth=40, seen=None):
+    """tokens describing where a pointer-like local comes from, following plain definitions only (stores THROUGH the local, e.g.
+    `(*p).next = v`, are not definitions of p): ('param', n), ('field', name), ('call', callee)"""
+    from ..dataflow import TRANSPARENT
+    seen = seen if seen is not None else set()
+    if l in seen or depth <= 0:
+        return set()
+    seen.add(l)
+    if 1 <= l <= b.nargs:
+        return {("param", l)}
+    out = set()
+    for d in b.defs().get(l, []):
+        if d[0] == "stmt":
+            if d[3]["pl"]["p"]:
+                continue
+            rv = d[3]["rv"]
+            src = None
+            if rv["k"] in ("use", "cast") and rv["ops"][0].get("k") in ("copy", "move"):
+                src = rv["ops"][0]["pl"]
+            elif rv["k"] in ("ref", "rawptr"):
+                src = rv["pl"]
+            elif rv["k"] == "aggregate" and len(rv["ops"]) == 1 and rv["ops"][0].get("k") in ("copy", "move"):
+                src = rv["ops"][0]["pl"]
+            elif rv["k"] == "aggregate" and not rv["ops"]:
+                out.add(("agg", rv.get("variant") or rv.get("adt") or ""))
+            elif rv["k"] == "binop":
+                out.add(("binop", rv["op"].replace("WithOverflow", "")))
+            if src is not None:
+                for e in src["p"]:
+                    if isinstance(e, dict) and "f" in e and e.get("n"):
+                        out.add(("field", e["n"]))
+                out |= _chain_tokens(b, src["l"], depth - 1, seen)
+        elif d[0] == "call":
+            t = d[3]
+            nm = strip_generics(t.get("resolved") or t.get("callee") or "")
+            dn = strip_generics(t.get("callee") or "")
+            if (nm in TRANSPARENT or dn in TRANSPARENT or nm.endswith(("::as_ref", "::as_mut", "::clone", "::cloned", "::map"))) and t["args"] and t["args"][0].get("k") in ("copy", "move"):
+                if nm.endswith("::map"):
+                    out.add(("call", "map"))
+                for e in t["args"][0]["pl"]["p"]:
+                    if isinstance(e, dict) and "f" in e and e.get("n"):
+                        out.add(("field", e["n"]))
+                out |= _chain_tokens(b, t["args"][0]["pl"]["l"], depth - 1, seen)
+            else:
+                out.add(("call", nm.rsplit("::", 2)[-2] + "::" + nm.rsplit("::", 1)[-1] if nm.count("::") >= 2 else nm))
+                for a in t["args"][:1]:
+                    if a.get("k") in ("copy", "move"):
+                        sub = _chain_tokens(b, a["pl"]["l"], depth - 1, seen)
+                        out |= {("via", x) for x in sub if x[0] == "field"} | {x for x in sub if x[0] == "param"}
+                        for e in a["pl"]["p"]:
+                            if isinstance(e, dict) and "f" in e and e.get("n"):
+                                out.add(("via", ("field", e["n"])))
+    return out
+
+
+LIST = "utils::linked_list::LinkedList::<T>::"
+
+
+def _link_stores(b):
+    """(field, tokens of the base pointer, tokens of the value, bb, stmt) for every store to a list / node link field"""
+    out = []
+    for fld in ("head", "tail", "length", "next", "prev"):
+        for (bb, i, st) in field_stores(b, fld):
+            if b.is_cleanup(bb):
+                continue
+            base = _chain_tokens(b, st["pl"]["l"])
+            val = set()
+            rv = _eff_rv(b, st["rv"])
+            for op in rv.get("ops", []):
+                if op.get("k") in ("copy", "move"):
+                    for e in op["pl"]["p"]:
+                        if isinstance(e, dict) and "f" in e and e.get("n"):
+                            val.add(("field", e["n"]))
+                    val |= _chain_tokens(b, op["pl"]["l"])
+            if rv["k"] == "aggregate" and not rv.get("ops"):
+                val.add(("agg", rv.get("variant") or ""))
+            if rv["k"] == "binop":
+                val.add(("binop", rv["op"].replace("WithOverflow", "")))
+            out.append((fld, base, val, bb, st))
+    return out
+
+
+def lst1_link_repairs(P, R, L, rule="LST-1"):
+    """utils::linked_list::LinkedList (the version list, the snapshot list, the LRU lists): remove_node unlinks exactly the node it is
+    given - predecessor.next = node.next (or head = node.next when there is no predecessor), successor.prev = node.prev (or
+    tail = predecessor when there is no successor), length - 1 on every path; push_node appends - node.prev = old tail,
+    node.next = None, old tail.next = node (or head = node for an empty list), tail = node, length + 1.  A repair that is
+    left out leaves a removed node reachable (a released version keeps its files alive; iteration from the head misses
+    every version pushed after a stale tail)."""
+    rm = P.body(LIST + "remove_node")
+    pn = P.body(LIST + "push_node")
+    if rm is None:
+        R.missing_anchor(rule, LIST + "remove_node")
+    if pn is None:
+        R.missing_anchor(rule, LIST + "push_node")
+    n = 0
+    if rm is not None:
+        R.analysed(rm)
+        S = _link_stores(rm)
+        is_prev_node = lambda t: ("call", "Weak::upgrade") in t
+        is_next_node = lambda t: ("field", "next") in t and ("param", 2) in t and not is_prev_node(t)
+        from_target = lambda t, f: (("field", f) in t or ("via", ("field", f)) in t) and ("param", 2) in t
+        # None edges of the two Options the repairs branch on
+        def none_edges(pred):
+            es = []
+            for bb in range(rm.n):
+                for st in rm.blocks[bb]["stmts"]:
+                    if st["k"] == "assign" and st["rv"]["k"] == "discr" and not st["pl"]["p"]:
+                        tk = _chain_tokens(rm, st["rv"]["pl"]["l"]) | {("field", e["n"]) for e in st["rv"]["pl"]["p"] if isinstance(e, dict) and "f" in e and e.get("n")}
+                        if pred(tk):
+                            for sb in _switches_on_local(rm, st["pl"]["l"]):
+                                t0 = switch_target(rm.term(sb), 0)
+                                if t0 is not None and t0 != switch_target(rm.term(sb), 1):
+                                    es.append((sb, t0))
+            return es
+        no_prev = none_edges(lambda t: is_prev_node(t) or (("field", "prev") in t and ("param", 2) in t))
+        no_next = none_edges(lambda t: ("field", "next") in t and ("param", 2) in t and not is_prev_node(t))
+        need = [
+            ("predecessor.next = node.next", [s for s in S if s[0] == "next" and is_prev_node(s[1]) and from_target(s[2], "next")], None),
+            ("head = node.next (no predecessor)", [s for s in S if s[0] == "head" and ("param", 1) in s[1] and from_target(s[2], "next")], no_prev),
+            ("successor.prev = node.prev", [s for s in S if s[0] == "prev" and is_next_node(s[1]) and from_target(s[2], "prev") and not is_prev_node(s[2])], None),
+            ("tail = predecessor (no successor)", [s for s in S if s[0] == "tail" and ("param", 1) in s[1] and is_prev_node(s[2])], no_next),
+        ]
+        for what, sts, guard in need:
+            n += 1
+            ok = len(sts) >= 1
+            det = "stores %d" % len(sts)
+            if ok and guard is not None:
+                ok = bool(guard) and all(rm.must_pass(s[3], through_edges=guard) for s in sts)
+                det += "; behind the None edge: %s" % ok
+            R.check(rule, LIST + "remove_node|" + what.split(" (")[0].replace(" ", ""), ok, where(rm), what, det)
+        # both branches of each repair exist on every path: every return passes (pred.next store or head store) and (succ.prev store or tail store)
+        a = [s[3] for s in need[0][1] + need[1][1]]
+        c = [s[3] for s in need[2][1] + need[3][1]]
+        ln = [s for s in S if s[0] == "length" and ("binop", "Sub") in s[2]]
+        every = bool(a) and bool(c) and bool(ln) and all(rm.must_pass(r, through_nodes=a) and rm.must_pass(r, through_nodes=c) and rm.must_pass(r, through_nodes=[s[3] for s in ln])
+                                                          for r in rm.return_blocks())
+        other = [s for s in S if s not in need[0][1] + need[1][1] + need[2][1] + need[3][1] + ln]
+        R.check(rule, LIST + "remove_node|every-path-repairs-both-sides", every and not other, where(rm),
+                "every path repairs the forward link, the backward link and the length, and writes no other link",
+                "forward %d, backward %d, length %d, other link stores %d" % (len(a), len(c), len(ln), len(other)))
+    if pn is not None:
+        R.analysed(pn)
+        S = _link_stores(pn)
+        node = lambda t: ("param", 2) in t and not (("field", "tail") in t)
+        old_tail = lambda t: ("field", "tail") in t and ("param", 1) in t
+        need = [
+            ("node.prev = old tail", [s for s in S if s[0] == "prev" and node(s[1]) and (old_tail(s[2]) or (("via", ("field", "tail")) in s[2]) or (("call", "map") in s[2] and ("field", "tail") in s[2]))]),
+            ("node.next = None", [s for s in S if s[0] == "next" and node(s[1]) and ("agg", "None") in s[2]]),
+            ("old tail.next = node", [s for s in S if s[0] == "next" and old_tail(s[1]) and ("param", 2) in s[2]]),
+            ("head = node (empty list)", [s for s in S if s[0] == "head" and ("param", 1) in s[1] and ("param", 2) in s[2]]),
+            ("tail = node", [s for s in S if s[0] == "tail" and ("param", 1) in s[1] and ("param", 2) in s[2]]),
+            ("length + 1", [s for s in S if s[0] == "length" and ("binop", "Add") in s[2]]),
+        ]
+        for what, sts in need:
+            n += 1
+            R.check(rule, LIST + "push_node|" + what.split(" (")[0].replace(" ", ""), len(sts) >= 1, where(pn), what, "stores %d" % len(sts))
+        fwd = [s[3] for s in need[2][1] + need[3][1]]
+        every = bool(fwd) and all(pn.must_pass(r, through_nodes=fwd) and pn.must_pass(r, through_nodes=[s[3] for s in need[4][1]]) and
+                                  pn.must_pass(r, through_nodes=[s[3] for s in need[5][1]]) and pn.must_pass(r, through_nodes=[s[3] for s in need[0][1]])
+                                  for r in pn.return_blocks())
+        R.check(rule, LIST + "push_node|every-path-links-the-node", every, where(pn), "every path links the node behind the old tail (or as head), makes it the tail and counts it", "")
+    R.floor(rule, "link repairs examined", n, 10)
